@@ -20,6 +20,7 @@ type solverCfg struct {
 	seed     int
 	keepDir  string
 	allAgree bool
+	noBatch  bool
 }
 
 var patHead = regexp.MustCompile(`:pattern \(\((\S+)`)
@@ -146,6 +147,8 @@ func runSolver(ctx context.Context, solver, file string, ms int, seed int) solve
 	first := strings.TrimSpace(strings.SplitN(text, "\n", 2)[0])
 	st := "unknown"
 	switch {
+	case strings.Contains(text, "(error"):
+		st = "error"
 	case first == "unsat":
 		st = "unsat"
 	case first == "sat":
@@ -255,8 +258,153 @@ func cleanupWorkDir() {
 
 var fileSafe = regexp.MustCompile(`[^A-Za-z0-9_.$@#-]+`)
 
+// batchText: all obligations of one function context in one incremental script (push/pop).
+func (c *FnCtx) batchText(obs []*Oblig) string {
+	decls := c.declsOnly()
+	var all strings.Builder
+	for _, t := range c.ctx {
+		all.WriteString(t)
+		all.WriteString("\n")
+	}
+	for _, o := range obs {
+		all.WriteString(o.Goal)
+		all.WriteString("\n")
+	}
+	syms := map[string]bool{}
+	symbolsOf(decls, syms)
+	symbolsOf(all.String(), syms)
+	var axs []string
+	used := make([]bool, len(c.axioms))
+	for changed := true; changed; {
+		changed = false
+		for i, ax := range c.axioms {
+			if used[i] {
+				continue
+			}
+			for _, s := range ax.syms {
+				if syms[s] {
+					used[i] = true
+					changed = true
+					axs = append(axs, ax.text)
+					symbolsOf(ax.text, syms)
+					break
+				}
+			}
+		}
+	}
+	var sb strings.Builder
+	sb.WriteString(preludeDecls)
+	sb.WriteString(preludeExtra)
+	sb.WriteString(c.sorts.declText())
+	for i, ax := range preludeAxioms {
+		for _, s := range preludeAxiomSyms[i] {
+			if syms[s] {
+				sb.WriteString(ax)
+				sb.WriteString("\n")
+				break
+			}
+		}
+	}
+	sb.WriteString(decls)
+	for _, a := range axs {
+		sb.WriteString("(assert ")
+		sb.WriteString(a)
+		sb.WriteString(")\n")
+	}
+	done := 0
+	for _, o := range obs {
+		for ; done < o.Prefix && done < len(c.ctx); done++ {
+			sb.WriteString("(assert ")
+			sb.WriteString(c.ctx[done])
+			sb.WriteString(")\n")
+		}
+		sb.WriteString("(push 1)\n(assert (not ")
+		sb.WriteString(o.Goal)
+		sb.WriteString("))\n(check-sat)\n(pop 1)\n")
+	}
+	return sb.String()
+}
+
+// solveBatches: first pass, one incremental z3-new process per function; whatever it does not
+// prove is left for the per-obligation portfolio.
+func solveBatches(obs []*Oblig, cfg *solverCfg) {
+	dir := getWorkDir()
+	groups := map[*FnCtx][]*Oblig{}
+	var order []*FnCtx
+	for _, o := range obs {
+		if o.Cover || o.ctx == nil {
+			continue
+		}
+		if _, ok := groups[o.ctx]; !ok {
+			order = append(order, o.ctx)
+		}
+		groups[o.ctx] = append(groups[o.ctx], o)
+	}
+	var wg sync.WaitGroup
+	sem := make(chan struct{}, cfg.workers)
+	for gi, c := range order {
+		list := groups[c]
+		// obligations must be in prefix order
+		sorted := true
+		for i := 1; i < len(list); i++ {
+			if list[i].Prefix < list[i-1].Prefix {
+				sorted = false
+			}
+		}
+		if !sorted || len(list) < 2 {
+			continue
+		}
+		wg.Add(1)
+		sem <- struct{}{}
+		go func(gi int, c *FnCtx, list []*Oblig) {
+			defer wg.Done()
+			defer func() { <-sem }()
+			file := filepath.Join(dir, fmt.Sprintf("batch%04d_%d.smt2", gi, time.Now().UnixNano()))
+			if err := os.WriteFile(file, []byte(c.batchText(list)), 0o644); err != nil {
+				return
+			}
+			defer os.Remove(file)
+			perMs := 1500
+			cmd := exec.Command("z3-new", fmt.Sprintf("-t:%d", perMs), fmt.Sprintf("-T:%d", len(list)*2+20), fmt.Sprintf("smt.random_seed=%d", cfg.seed), file)
+			var out bytes.Buffer
+			cmd.Stdout = &out
+			cmd.Stderr = &out
+			start := time.Now()
+			cmd.Run()
+			el := time.Since(start).Seconds()
+			text := out.String()
+			if strings.Contains(text, "(error") {
+				return
+			}
+			lines := strings.Split(strings.TrimSpace(text), "\n")
+			for i, o := range list {
+				if i >= len(lines) {
+					break
+				}
+				if strings.TrimSpace(lines[i]) == "unsat" {
+					o.Status = "discharged"
+					o.Solver = "z3-new"
+					o.Time = el / float64(len(list))
+					o.Output = "unsat (incremental batch)"
+				}
+			}
+		}(gi, c, list)
+	}
+	wg.Wait()
+}
+
 // solveObligs discharges obligations in parallel.
 func solveObligs(obs []*Oblig, cfg *solverCfg) {
+	if !cfg.noBatch && cfg.keepDir == "" {
+		solveBatches(obs, cfg)
+		var rest []*Oblig
+		for _, o := range obs {
+			if o.Status != "discharged" {
+				rest = append(rest, o)
+			}
+		}
+		obs = rest
+	}
 	dir := getWorkDir()
 	var wg sync.WaitGroup
 	sem := make(chan struct{}, cfg.workers)
@@ -277,11 +425,19 @@ func solveObligs(obs []*Oblig, cfg *solverCfg) {
 				o.Output = err.Error()
 				return
 			}
-			r := discharge(file, cfg)
+			var r solverResult
+			if o.Cover {
+				r = runSolver(context.Background(), "z3-new", file, 2000, cfg.seed)
+			} else {
+				r = discharge(file, cfg)
+			}
 			o.Solver, o.Time, o.Output = r.solver, r.secs, r.output
 			switch r.status {
 			case "unsat":
 				o.Status = "discharged"
+				if o.Cover {
+					o.Status = "unsat"
+				}
 			case "sat":
 				o.Status = "sat"
 			default:
